@@ -546,6 +546,39 @@ def walk_term(t):
                                 st.append(cc)
 
 
+def subst_args(t, argmap):
+    """replace ('arg', i) leaves of a term by argmap[i]"""
+    if not isinstance(t, tuple) or not t:
+        return t
+    if t[0] == "arg" and len(t) == 2 and t[1] in argmap:
+        return argmap[t[1]]
+    if isinstance(t[0], str):
+        return tuple([t[0]] + [subst_args(x, argmap) if isinstance(x, tuple) else x for x in t[1:]])
+    return tuple(subst_args(x, argmap) if isinstance(x, tuple) else x for x in t)
+
+
+def resolve_fields(prog, t, _memo=None):
+    """rewrite fld(call(local fn returning a struct literal), owner, f) to the literal's component"""
+    if _memo is None:
+        _memo = {}
+    if not isinstance(t, tuple) or not t or not isinstance(t[0], str):
+        if isinstance(t, tuple):
+            return tuple(resolve_fields(prog, x, _memo) if isinstance(x, tuple) else x for x in t)
+        return t
+    if t[0] == "fld":
+        base = resolve_fields(prog, t[1], _memo)
+        if base[0] == "call" and base[1] in prog.fns:
+            if base[1] not in _memo:
+                _memo[base[1]] = Prov(prog.fns[base[1]].body).local(0)
+            ht = _memo[base[1]]
+            if ht[0] == "agg" and t[3] in ht[2]:
+                comp = ht[3][ht[2].index(t[3])]
+                comp = subst_args(comp, {i + 1: a for i, a in enumerate(base[2])})
+                return resolve_fields(prog, comp, _memo)
+        return ("fld", base, t[2], t[3])
+    return tuple([t[0]] + [resolve_fields(prog, x, _memo) if isinstance(x, tuple) else x for x in t[1:]])
+
+
 def term_fields(t):
     """set of (owner, field) mentioned in a term"""
     return {(x[2], x[3]) for x in walk_term(t) if x and x[0] == "fld"}
